@@ -173,6 +173,17 @@ func suiteC05(c *ctx) {
 		}
 		fr := fragmentations(r, stream, false)
 		cs.chunks = fr[r.Intn(len(fr))]
+		if !stallFree(cs.chunks) {
+			// these are WRITES on a socket: a zero-length write reaches nobody, so a long run of them is
+			// not a run of zero-length reads (C13's scripted readers cover those); keep the data chunks
+			var keep [][]byte
+			for _, ch := range cs.chunks {
+				if len(ch) > 0 {
+					keep = append(keep, ch)
+				}
+			}
+			cs.chunks = keep
+		}
 		cs.pauses = len(cs.chunks) > 1 && len(cs.chunks) < 40 && r.Intn(3) == 0
 		cs.fullClose = r.Intn(25) == 0
 		cases = append(cases, cs)
